@@ -22,6 +22,17 @@ def extra(prop, tier):
             if (b["rc"], b["sha"], b["exc"]) != (o["rc"], o["sha"], o["exc"]):
                 hits.append({"stream": "determinism", "case": c, "obs": {"seed0": b, "seed%d" % sd: o},
                              "key": "hashseed-differs", "what": f"output differs between PYTHONHASHSEED=0 and {sd}: rc {b['rc']} vs {o['rc']}, {b['len']} vs {o['len']} chars"})
+    # hidden state across invocations: the same cases in REVERSED order (different predecessors in each worker
+    # process) must give the same per-case output as in the base run
+    rev = list(reversed(cases))
+    obs = list(reversed(C.run_impl("determinism", rev, env_extra={"PYTHONHASHSEED": "0"})))
+    evaluations += len(obs)
+    for c, b, o in zip(cases, base, obs):
+        if not (isinstance(b, dict) and isinstance(o, dict)) or b.get("error") or o.get("error"):
+            continue
+        if (b["rc"], b["sha"], b["exc"]) != (o["rc"], o["sha"], o["exc"]):
+            hits.append({"stream": "determinism", "case": c, "obs": {"in_order": b, "reversed_order": o},
+                         "key": "order-of-invocations-differs", "what": "the output for this pair depends on which comparisons ran earlier in the same process"})
     return {"hits": hits, "evaluations": evaluations, "distinct": [],
             "info": {"hash_seeds": [0] + seeds, "cases_per_seed": len(cases)},
             "samples": [{"stream": "determinism", "case": cases[0], "obs": base[0]}] if cases else []}
